@@ -64,6 +64,20 @@ def mk(kind, b, c, pattern, file, present, ops, extra=()):
     return [kind, b, c, gz, pattern, env, file, init, ops]
 
 
+def corpus():
+    # index inside a $ENV variable NAME where only SOME indices name a set variable whose value
+    # has a directory part: the archive directories differ although index `base` and the raw
+    # pattern share their parent (the case the `parent_varies` shortcut of rotate() got wrong)
+    out = []
+    for (pattern, env) in (("d/$ENV{C07X{}}", [["C07X1", "r/s"]]),
+                           ("d/f{}$ENV{C07Y{}}", [["C07Y1", "/s"], ["C07Y2", "/t/u"]]),
+                           ("$ENV{C07Z{}}", [["C07Z2", "deep/er/z"]])):
+        for c in (2, 3):
+            ops = [[1, b"roll%d;" % k] for k in range(c + 1)]
+            out.append([0, 0, c, 0, pattern, env, "app.log", [["keep.me", b"by"]], ops])
+    return out
+
+
 def cases(rng, tier):
     out = []
     # exhaustive small scope
